@@ -77,10 +77,12 @@ func probe() {
 	emit("ca", "plug", "86400", "86400", "1", "3600", "86400")
 	pods1a := append(append([]podSpec{}, pods...), podSpec{name: "ztx", ns: "istio-system", uid: "u9", sa: "other", node: "n1"})
 	emit("na", wire.EncList([]string{"istio-system/ztunnel"}), "1", "c1", encPods(pods1a))
-	for i := 0; i < 4; i++ {
+	for i := 0; i < 5; i++ {
 		r := base()
 		r.imp = "s:" + wire.Enc("spiffe://cluster.local/ns/a/sa/b")
 		switch i {
+		case 4:
+			r.outs[0].kube.PodName = "" // no pod name: there is no caller pod to find
 		case 0:
 			r.outs[0].kube.PodUID = "" // no UID (a TokenReview without the pod-uid extra)
 		case 1:
@@ -173,6 +175,22 @@ func probe() {
 		emit("cl", "sync", "c2")
 		emit(r.line()...)
 	}
+	// 1a3. pod UPDATE events and a namespace outside the discovery selectors
+	header("pod-updates-and-hidden-namespace")
+	emit("ca", "plug", "86400", "86400", "1", "3600", "86400")
+	podsH := append(append([]podSpec{}, pods...), podSpec{name: "late", ns: "e", uid: "u40", sa: "f", node: "", phase: "P"},
+		podSpec{name: "hid", ns: "hiddenns", uid: "u41", sa: "h", node: "n1"})
+	emit("nap", wire.EncList([]string{"istio-system/ztunnel"}), "1", "c1", encPods(podsH), "hide", wire.EncList([]string{"hiddenns"}))
+	ask("u1", "hiddenns", "h") // the pod exists on the node but its namespace is not watched
+	ask("u1", "e", "f")        // not scheduled yet
+	emit("pod", "upd", "c1", pf(podSpec{name: "late", ns: "e", uid: "u40", sa: "f", node: "n1", phase: ""}))
+	ask("u1", "e", "f")
+	emit("pod", "upd", "c1", pf(podSpec{name: "late", ns: "e", uid: "u40", sa: "f", node: "n1", phase: "F"}))
+	ask("u1", "e", "f") // Running -> Failed: gone from the informer
+	emit("pod", "upd", "c1", pf(podSpec{name: "p1", ns: "a", uid: "u2", sa: "b", node: "n2", phase: ""}))
+	ask("u1", "a", "b") // moved to another node
+	emit("pod", "upd", "c1", pf(podSpec{name: "zt", ns: "istio-system", uid: "u1", sa: "ztunnel", node: "n2", phase: ""}))
+	ask("u1", "a", "b")
 	// 1b. pods the {service account, node} index must not contain: unscheduled pods (NodeName guard:
 	// an unscheduled trusted caller asks for an unscheduled pod's identity), pods without service
 	// account, and Failed pods (filtered by the informer's field selector)
@@ -351,6 +369,48 @@ func probe() {
 	emit("ca", "noroot", "86400", "86400", "0", "3600", "86400")
 	emit("na", "-")
 	emit(base().line()...)
+	// 4c. CAs built through the production constructors, an RSA intermediate, a signer that is not valid yet; CSRs from
+	// the real util.GenCSR; the signing certificate replaced under the live CA; istiod's own certificate (GenKeyCert)
+	for _, k := range []string{"plugfile", "selfk8s", "plugrsa", "future"} {
+		header("ca-" + k)
+		switch k {
+		case "plugfile":
+			emit("ca", k, "7200", "7200", "1", "1800", "86400")
+		case "future":
+			emit("ca", k, "7200", "-", "1", "1800", "86400")
+		case "selfk8s":
+			emit("ca", k, fmt.Sprint(farLife), "-", "1", "1800", "86400")
+		default:
+			emit("ca", k, fmt.Sprint(farLife), fmt.Sprint(farLife), "1", "1800", "86400")
+		}
+		emit("na", "-")
+		for _, ttl := range []int64{0, 600, 86400, 86401} {
+			r := base()
+			r.ttl = ttl
+			r.csr = csrSpec{form: "gen", key: "ec256-a", cn: "x", org: "Evil Corp", sans: []string{"spiffe://cluster.local/ns/kube-system/sa/admin", "evil.example.com"}}
+			emit(r.line()...)
+		}
+	}
+	header("bundle-rotation")
+	emit("ca", "plug", "86400", "86400", "1", "3600", "86400")
+	emit("na", "-")
+	{
+		r := base()
+		r.ttl = 7200
+		emit(r.line()...)
+		emit("genkeycert", wire.EncList([]string{"istiod.istio-system.svc", "10.0.0.1"}), "600")
+		emit("genkeycert", wire.EncList([]string{"istiod.istio-system.svc"}), fmt.Sprint(86400*365)) // no lifetime check, clamped to the signer
+		emit("genkeycert", wire.EncList([]string{"a,b"}), "600")
+		emit("rot", "3600", "-") // a signer that expires sooner takes over
+		emit(r.line()...)        // now clamped
+		r.ttl = 0
+		emit(r.line()...) // the default TTL computed at construction is kept
+		emit("rot", "-3600", "-")
+		emit(r.line()...)
+		emit("rot", "2592000", "c")
+		r.ttl = 7200
+		emit(r.line()...)
+	}
 	// 5. no signer / expired signer / expired chain
 	for _, k := range []string{"nosigner", "expired", "expiredchain"} {
 		header(k)
